@@ -33,6 +33,11 @@ MANIFEST = {
 }
 
 
+def cmp_text_(c, subject):
+    from rules.common import cmp_text
+    return cmp_text(c, subject)
+
+
 def root_is(e, name):
     while isinstance(e, (ast.Attribute, ast.Call, ast.Subscript)):
         e = e.func if isinstance(e, ast.Call) else e.value
@@ -274,6 +279,74 @@ def run(ctx):
              n.func.attr in ('strip', 'rstrip') and not n.args and root_is(n.func.value, tb_param)]
     ctx.ob('T9.trim', fs.fq, 'the traceback text is never right-trimmed as a whole (trailing blanks are part of the message)', not trims,
            loc=loc(fs, trims[0]) if trims else fs.loc, detail=txt(trims[0]) if trims else '')
+    # T9.walk: the two frame walkers (sibling implementations).  Each step of the walking loop records a call point built from
+    # the cursor, advances the cursor along its link (tb_next / f_back) and counts the step; the loop stops on `cursor is None`
+    # and on the limit; from_frame walks from the innermost frame outwards and therefore reverses before returning
+    tci = prog.cls('tbutils.TracebackInfo')
+    for nm, link, factory in (('from_traceback', 'tb_next', 'from_tb'), ('from_frame', 'f_back', 'from_frame')):
+        wf_ = prog.func('tbutils.TracebackInfo.' + nm)
+        loops = [n for n in ast.walk(wf_.node) if isinstance(n, ast.While)]
+        if len(loops) != 1:
+            ctx.unknown('T9.walk', wf_.fq, 'expected exactly one walking loop, found %d' % len(loops), wf_.loc)
+            continue
+        lp = loops[0]
+        # the cursor: the name re-bound from <name>.<link> inside the loop
+        adv = [n for n in ast.walk(lp) if isinstance(n, ast.Assign) and len(n.targets) == 1 and isinstance(n.targets[0], ast.Name)
+               and isinstance(n.value, ast.Attribute) and n.value.attr == link and txt(n.value.value) == n.targets[0].id]
+        cur = adv[0].targets[0].id if adv else None
+        conds = {cmp_text_(c, cur) for c in ast.walk(lp.test) if isinstance(c, ast.Compare)} if cur else set()
+        counters = [n for n in ast.walk(lp) if isinstance(n, ast.AugAssign) and isinstance(n.op, ast.Add) and isinstance(n.target, ast.Name)]
+        counters += [n for n in ast.walk(lp) if isinstance(n, ast.Assign) and len(n.targets) == 1 and isinstance(n.targets[0], ast.Name)
+                     and isinstance(n.value, ast.BinOp) and isinstance(n.value.op, ast.Add) and n.targets[0].id in txt(n.value)
+                     and n not in adv]
+        cname = txt(counters[0].target if isinstance(counters[0], ast.AugAssign) else counters[0].targets[0]) if counters else None
+        stops_none = cur is not None and ('%s is not None' % cur) in conds
+        stops_limit = cname is not None and any(c in conds for c in ('%s < limit' % cname, 'limit > %s' % cname)) or \
+            any(('limit' in c and cname and cname in c) for c in conds) or any(c.startswith('len(') and 'limit' in c for c in conds)
+        ctx.ob('T9.walk', wf_.fq, 'the walking loop runs while the cursor is not None and the limit is not reached', bool(stops_none and stops_limit),
+               loc=loc(wf_, lp), detail='loop test `%s`' % txt(lp.test))
+        w_, paths_ = paths_of(prog, wf_, recv=tci)
+        bad = None
+        n_it = 0
+        for p in paths_:
+            its = [o for o in p.ops if o.kind == 'loop_iter']
+            bounds = [o.seq for o in its] + [10 ** 9]
+            for a, b in zip(bounds, bounds[1:]):
+                seg = [o for o in p.ops if a < o.seq < b]
+                if not any(o.kind == 'test' and o.info is True and o.node is lp.test or
+                           (o.kind == 'test' and o.info is True and any(o.node is c for c in ast.walk(lp.test))) for o in seg):
+                    continue
+                # only complete iterations (followed by another loop_iter or by the loop exit test)
+                n_it += 1
+                made = any(o.kind == 'call' and isinstance(o.val.func, ast.Attribute) and o.val.func.attr == factory for o in seg)
+                kept = any(o.kind == 'call' and isinstance(o.val.func, ast.Attribute) and o.val.func.attr in ('append', 'insert', 'appendleft')
+                           for o in seg)
+                moved = any(o.kind == 'name_store' and isinstance(o.node, ast.Name) and o.node.id == cur and
+                            isinstance(o.val, ast.Attribute) and o.val.attr == link for o in seg) if cur else False
+                counted = any((o.kind == 'aug' and txt(o.node.target) == cname) or
+                              (o.kind == 'name_store' and isinstance(o.node, ast.Name) and o.node.id == cname and isinstance(o.val, ast.BinOp))
+                              for o in seg) if cname else False
+                if cname is None and any(c.startswith('len(') and 'limit' in c for c in conds):
+                    counted = kept            # the collected list itself is the step counter
+                if not (made and kept and moved and counted) and bad is None:
+                    bad = (p, 'call point made: %s, kept: %s, cursor advanced: %s, step counted: %s' % (made, kept, moved, counted))
+        if n_it == 0:
+            ctx.unknown('T9.walk', wf_.fq, 'no complete iteration of the walking loop enumerated', wf_.loc)
+        else:
+            ctx.ob('T9.walk', wf_.fq, 'every step records a call point (%s) of the cursor, advances the cursor along %s and counts the step'
+                   % (factory, link), bad is None, loc=loc(wf_, lp), detail=bad[1] if bad else '', path=bad[0].describe() if bad else None)
+        if nm == 'from_frame':
+            revd = True
+            for p in paths_:
+                if p.kind == 'return' and any(o.kind == 'loop_iter' for o in p.ops):
+                    last_it = max(o.seq for o in p.ops if o.kind == 'loop_iter')
+                    if not any(o.kind == 'call' and ((isinstance(o.val.func, ast.Attribute) and o.val.func.attr == 'reverse') or
+                                                     txt(o.val.func) == 'reversed') and o.seq > last_it for o in p.ops) and \
+                            not any(o.kind == 'call' and isinstance(o.val.func, ast.Attribute) and o.val.func.attr in ('insert', 'appendleft')
+                                    for o in p.ops):
+                        revd = False
+            ctx.ob('T9.walk', wf_.fq, 'frames are collected innermost first and reversed before they are returned (most recent call last)',
+                   revd, loc=wf_.loc)
     # sibling constructors give the deferred line the frame's module globals (needed for loader-backed sources)
     cci = prog.cls('tbutils.Callpoint')
     for name, gl in (('from_tb', 'f_globals'), ('from_frame', 'f_globals')):
